@@ -745,6 +745,14 @@ def reveal_plates(
             "All revealed observations were 0 indicating a problem with your Screen, please check your data"
         )
 
+    # each revealed plate is tested on its own: a plate of zeros must not pass
+    # because it is revealed together with a plate that holds real values
+    for plate_id in np.unique(screen.plate_ids[reveal_mask]):
+        if np.all(screen.observations[screen.plate_ids == plate_id] == 0):
+            raise ValueError(
+                "All revealed observations were 0 indicating a problem with your Screen, please check your data"
+            )
+
     if np.any(np.isnan(revealed_values)):
         raise ValueError("NaN found in revealed observations, please check your data")
 
